@@ -26,9 +26,9 @@ def unit():
     open spec fn kstep(&self) -> KStep { belt_ks(self.cipher.enc_fn()) }
     open spec fn klimit(&self) -> Option<int> { Some(two128() - 1 - ((self.s as int - self.s_init as int) % two128())) }
 ''', fns={
-            'remaining_blocks': FnC(ret='r', props=('C11', 'C13'), inherits=True, ensures=[
-                ('exact', ('C11',), 'r is Some ==> r->Some_0 as int == two128() - 1 - ((self.s as int - self.s_init as int) % two128())'),
-                ('none_only_if_unrepresentable', ('C11',), 'r is None ==> two128() - 1 - ((self.s as int - self.s_init as int) % two128()) > usize::MAX'),
+            'remaining_blocks': FnC(ret='r', props=('C10', 'C11', 'C13'), inherits=True, ensures=[
+                ('exact', ('C10', 'C11'), 'r is Some ==> r->Some_0 as int == two128() - 1 - ((self.s as int - self.s_init as int) % two128())'),
+                ('none_only_if_unrepresentable', ('C10', 'C11'), 'r is None ==> two128() - 1 - ((self.s as int - self.s_init as int) % two128()) > usize::MAX'),
             ], stmts={'0': 'proof { mod_sub_wrap(self.s as int, self.s_init as int, two128()); }'}),
             'process_with_backend': FnC(props=('C07', 'C06'), inherits=True, note='plumbing')}),
         Sel('impl StreamCipherSeekCore for BeltCtrCore', members='''
